@@ -10,14 +10,23 @@ set_option linter.unusedSimpArgs false
 
 namespace Pypyr.Format
 
-/-- A field without `rf`, outside a recursive format, never consults the recursive formatter. -/
+/-- An expression whose EXPANDED spec does not say `rf`, outside a recursive format, never consults the
+    recursive formatter. -/
 theorem fieldObj_flat (deep₁ deep₂ : Bool → Val → Except Exc Val) (ctx : Ctx) (f : FieldT)
-    (h : Spec.isRf f.spec = false) :
+    (h : ∀ spec, Spec.expandSpec ctx f.spec = .ok spec → Spec.isRf spec = false) :
     Spec.fieldObj deep₁ ctx false f = Spec.fieldObj deep₂ ctx false f := by
-  simp only [Spec.fieldObj, h, Bool.false_and, Bool.or_false, Bool.false_eq_true, if_false]
+  simp only [fieldObj_eq]
+  cases getField ctx f.name with
+  | error e => rfl
+  | ok obj =>
+    simp only []
+    cases hx : Spec.expandSpec ctx f.spec with
+    | error e => rfl
+    | ok spec =>
+      simp only [Spec.applyMode, h spec hx, Bool.false_and, Bool.or_false, Bool.false_eq_true, if_false]
 
 theorem resolve_flat (deep₁ deep₂ : Bool → Val → Except Exc Val) (ctx : Ctx) (ps : List Part)
-    (h : ∀ f, Part.fld f ∈ ps → Spec.isRf f.spec = false) :
+    (h : ∀ f, Part.fld f ∈ ps → ∀ spec, Spec.expandSpec ctx f.spec = .ok spec → Spec.isRf spec = false) :
     Spec.resolve deep₁ ctx false ps = Spec.resolve deep₂ ctx false ps := by
   induction ps with
   | nil => rfl
@@ -206,5 +215,66 @@ theorem ktLoop_ok_keys (fi : Bool → Val → Except Exc Val) (ctx : Ctx) (isRec
         · rw [hu] at hf; cases hf
           exact ktField_ok_key fi ctx isRec f auto r hkf hn k hk
         · exact ih _ _ h t ht' f hf hn k hk
+
+/-! ## a missing key at any position -/
+
+theorem ktLoop_cons (fi : Bool → Val → Except Exc Val) (ctx : Ctx) (isRec : Bool) (t : Tup) (ts : List Tup)
+    (perr : Option Exc) (auto : Option Nat) (result : List Entry) :
+    ktLoop fi ctx isRec (t :: ts) perr auto result =
+      (match t.field with
+       | none => ktLoop fi ctx isRec ts perr auto (if t.lit = [] then result else result ++ [.lit t.lit])
+       | some f =>
+         match ktField fi ctx isRec f auto with
+         | .error e => .error e
+         | .ok (entry, auto1) =>
+           ktLoop fi ctx isRec ts perr auto1 ((if t.lit = [] then result else result ++ [.lit t.lit]) ++ [entry])) := by
+  rw [ktLoop]
+  cases t.field <;> rfl
+
+/-- the loop gets past expressions that are named and resolve (lookup, spec expansion, `rf` recursion and
+    conversion succeed): whatever follows them is reached, with the numbering state unchanged -/
+theorem ktLoop_prefix (fi : Bool → Val → Except Exc Val) (ctx : Ctx) (isRec : Bool) (pre ts : List Tup)
+    (perr : Option Exc) (result : List Entry)
+    (hpre : ∀ t ∈ pre, ∀ g, t.field = some g → Named g.name ∧ ∃ r, Spec.fieldObj fi ctx isRec g = .ok r) :
+    ∃ result', ktLoop fi ctx isRec (pre ++ ts) perr (some 0) result = ktLoop fi ctx isRec ts perr (some 0) result' := by
+  induction pre generalizing result with
+  | nil => exact ⟨result, rfl⟩
+  | cons t pre ih =>
+    have hrest : ∀ u ∈ pre, ∀ g, u.field = some g → Named g.name ∧ ∃ r, Spec.fieldObj fi ctx isRec g = .ok r :=
+      fun u hu g hg => hpre u (by simp [hu]) g hg
+    rw [List.cons_append, ktLoop_cons]
+    cases hf : t.field with
+    | none => exact ih _ hrest
+    | some g =>
+      obtain ⟨hn, r, hr⟩ := hpre t (by simp) g hf
+      obtain ⟨obj, pending, spec⟩ := r
+      simp only [ktField_named _ _ _ _ hn, entryOf, hr]
+      exact ih _ hrest
+
+/-- an expression whose first name is not a context key: `get_field` raises the key-lookup error, before
+    anything else about the expression is looked at -/
+theorem ktField_missing (fi : Bool → Val → Except Exc Val) (ctx : Ctx) (isRec : Bool) (f : FieldT) (auto : Option Nat)
+    (hn : Named f.name) (k : String) (hk : firstKey f.name = some k) (hmiss : Ctx.get? ctx k = none)
+    (hascii : f.name.any (fun c => c.toNat ≥ 128) = false) :
+    ktField fi ctx isRec f auto = .error (keyNotInContext k) := by
+  unfold ktField
+  rw [autoNumber_named _ _ hn]
+  simp only
+  have hg : getField ctx f.name = .error (keyNotInContext k) := by
+    unfold getField
+    rw [hascii]
+    unfold firstKey at hk
+    cases hs : splitField f.name with
+    | error e => simp [hs] at hk
+    | ok r =>
+      obtain ⟨first, accs, err⟩ := r
+      simp only [hs] at hk ⊢
+      cases first with
+      | int n => simp at hk
+      | str kk =>
+        simp only [Option.some.injEq] at hk
+        subst hk
+        simp [getValue, hmiss]
+  rw [hg]
 
 end Pypyr.Format
